@@ -255,7 +255,39 @@ func NormalizeFrequencies(freqs []int, alphabet []int, totalFreq, scale int) (in
 		}
 	}
 
-	freqs[idxMax] = max(freqs[idxMax]-delta, 1)
+	if delta > 0 {
+		if inc > 0 {
+			// Deficit: the remaining error must be added, not subtracted
+			freqs[idxMax] += delta
+		} else if freqs[idxMax] > delta {
+			freqs[idxMax] -= delta
+		} else {
+			// Surplus bigger than the max frequency: take the remainder from
+			// the other symbols, never going below 1
+			for delta > 0 {
+				adjustments := 0
+
+				for _, idx := range alphabet[0:alphabetSize] {
+					if freqs[idx] <= 1 {
+						continue
+					}
+
+					freqs[idx]--
+					adjustments++
+					delta--
+
+					if delta == 0 {
+						break
+					}
+				}
+
+				if adjustments == 0 {
+					break
+				}
+			}
+		}
+	}
+
 	return alphabetSize, nil
 }
 
